@@ -12,7 +12,7 @@ os.chdir(os.path.dirname(os.path.abspath(__file__)))
 assert not [l for l in subprocess.run(["git", "-C", "/repo", "status", "--short"], capture_output=True, text=True).stdout.splitlines() if "issue-50" not in l], "/repo is dirty"
 m = json.load(open("seeded/MATRIX.json"))
 for prop in sys.argv[1:]:
-    for d in sorted(glob.glob(f"seeded/{prop}-[ABCDE]")):
+    for d in sorted(glob.glob(f"seeded/{prop}-[ABCDEF]")):
         sid = os.path.basename(d)
         patch = os.path.abspath(os.path.join(d, "patch.diff"))
         status = json.load(open(os.path.join(d, "meta.json"))).get("status", "")[:11]
@@ -31,5 +31,6 @@ for prop in sys.argv[1:]:
             if mm:
                 fired.append(mm.group(1) + (mm.group(2) or ""))
         m[sid] = {"status": status, "applies": True, "exit": p.returncode, "fired": fired}
-        print(sid, p.returncode, fired[:3])
+        print(sid, p.returncode, fired[:3], flush=True)
+    json.dump(m, open("seeded/MATRIX.json", "w"), indent=1)
 json.dump(m, open("seeded/MATRIX.json", "w"), indent=1)
